@@ -8,20 +8,21 @@
    q = quiescence. *)
 EXTENDS Integers, Sequences, FiniteSets, TLC, Json
 Trace == ndJsonDeserialize("trace.ndjson")
-VARIABLES variant, n, p, gmp, count, running, failed, callerDone, returned, begunCancelled, settled, l
-vars == <<variant, n, p, gmp, count, running, failed, callerDone, returned, begunCancelled, settled, l>>
+VARIABLES variant, n, p, gmp, count, running, failed, callerDone, returned, begunCancelled, settled, cerr, l
+vars == <<variant, n, p, gmp, count, running, failed, callerDone, returned, begunCancelled, settled, cerr, l>>
+\* cerr: the error of the caller's own context once it has ended: -1 cancelled, -2 its deadline passed
 Ev == Trace[l]
 Idx == 0..(n - 1)
 EffP == IF p <= 0 THEN gmp ELSE p
 WithCtx == variant \in {"DoContext", "MapContext"}
-Init == /\ variant = "" /\ n = 0 /\ p = 1 /\ gmp = 1 /\ count = <<>> /\ running = {} /\ failed = {} /\ callerDone = FALSE
+Init == /\ variant = "" /\ n = 0 /\ p = 1 /\ gmp = 1 /\ count = <<>> /\ running = {} /\ failed = {} /\ callerDone = FALSE /\ cerr = -1
         /\ returned = FALSE /\ begunCancelled = 0 /\ settled = FALSE /\ l = 1 /\ TLCSet(1, 0)
 Un(vs) == UNCHANGED vs
 Next ==
   /\ l <= Len(Trace) /\ l' = l + 1
   /\ CASE Ev.ev = "reset" ->
             /\ variant' = Ev.variant /\ n' = Ev.n /\ p' = Ev.p /\ gmp' = Ev.gmp /\ count' = [i \in 1..Ev.n |-> 0]
-            /\ running' = {} /\ failed' = {} /\ callerDone' = FALSE /\ returned' = FALSE /\ begunCancelled' = 0 /\ settled' = FALSE
+            /\ cerr' = (IF Ev.deadline = 1 THEN -2 ELSE -1) /\ running' = {} /\ failed' = {} /\ callerDone' = FALSE /\ returned' = FALSE /\ begunCancelled' = 0 /\ settled' = FALSE
        [] Ev.ev = "begin" ->
             /\ ~returned                                            \* no call starts after the library call returned
             /\ Ev.i \in Idx /\ count[Ev.i + 1] = 0                  \* each index at most once
@@ -32,15 +33,15 @@ Next ==
             /\ begunCancelled' <= (IF EffP > 1 THEN EffP - 1 ELSE 0)
             \* once a failure has settled (quiescence passed), nothing new is started
             /\ ~(settled /\ WithCtx)
-            /\ Un(<<variant, n, p, gmp, failed, callerDone, returned, settled>>)
+            /\ Un(<<cerr, variant, n, p, gmp, failed, callerDone, returned, settled>>)
        [] Ev.ev = "end" ->
             /\ Ev.i \in running /\ running' = running \ {Ev.i}
             \* failed: the error ids the calls returned (100 + i, or -1 when a call's own error is context.Canceled)
             /\ failed' = (IF Ev.err # 0 THEN failed \cup {Ev.err} ELSE failed)
             \* after the first failure the context handed to the other calls is cancelled
             /\ ((settled /\ WithCtx) => Ev.cend = 1)
-            /\ Un(<<variant, n, p, gmp, count, callerDone, returned, begunCancelled, settled>>)
-       [] Ev.ev = "cancel" -> callerDone' = TRUE /\ Un(<<variant, n, p, gmp, count, running, failed, returned, begunCancelled, settled>>)
+            /\ Un(<<cerr, variant, n, p, gmp, count, callerDone, returned, begunCancelled, settled>>)
+       [] Ev.ev = "cancel" -> callerDone' = TRUE /\ Un(<<cerr, variant, n, p, gmp, count, running, failed, returned, begunCancelled, settled>>)
        [] Ev.ev = "ret" ->
             /\ returned' = TRUE /\ Ev.panic = 0
             /\ running = {}                                         \* barrier: every started call has finished
@@ -48,12 +49,12 @@ Next ==
                THEN /\ Ev.err = 0 /\ \A i \in 1..n : count[i] = 1   \* exactly once each
                     /\ (variant \in {"Map", "MapContext"} => Ev.out = [i \in 1..n |-> 1000 + (i - 1)])   \* result i at position i
                ELSE IF failed # {}
-               THEN Ev.err \in failed \cup (IF callerDone THEN {-1} ELSE {})   \* an error one of the calls returned
-               ELSE \/ Ev.err = -1                                  \* the caller's own context error
+               THEN Ev.err \in failed \cup (IF callerDone THEN {cerr} ELSE {})   \* an error one of the calls returned
+               ELSE \/ Ev.err = cerr                                 \* the caller's own context error
                     \/ (Ev.err = 0 /\ \A i \in 1..n : count[i] = 1)
-            /\ Un(<<variant, n, p, gmp, count, running, failed, callerDone, begunCancelled, settled>>)
-       [] Ev.ev = "q" -> settled' = (settled \/ failed # {}) /\ Un(<<variant, n, p, gmp, count, running, failed, callerDone, returned, begunCancelled>>)
-       [] Ev.ev \in {"rel", "leak"} -> Un(<<variant, n, p, gmp, count, running, failed, callerDone, returned, begunCancelled, settled>>)
+            /\ Un(<<cerr, variant, n, p, gmp, count, running, failed, callerDone, begunCancelled, settled>>)
+       [] Ev.ev = "q" -> settled' = (settled \/ failed # {}) /\ Un(<<cerr, variant, n, p, gmp, count, running, failed, callerDone, returned, begunCancelled>>)
+       [] Ev.ev \in {"rel", "leak"} -> Un(<<cerr, variant, n, p, gmp, count, running, failed, callerDone, returned, begunCancelled, settled>>)
 Spec == Init /\ [][Next]_vars
 HWM == TLCSet(1, IF TLCGet(1) < l THEN l ELSE TLCGet(1))
 Accepted == PrintT(<<"HWM", TLCGet(1)>>) /\ TLCGet(1) = Len(Trace) + 1
